@@ -58,6 +58,22 @@ Proof. exact (fun H => H). Qed.
 
 Ltac wp_bind_with L := apply wp_bind; eapply wp_conseq; [ apply L | ].
 
+(* ------------------------------------------------------------------ opt_empty_value *)
+(* the value stored by opt_empty differs from [empty_value (o_ty o)] only for a pointer
+   option added with Group.AddOption (no struct field) *)
+Lemma opt_empty_value_field : forall o,
+  opt_is_added o = false -> opt_empty_value o = empty_value (o_ty o).
+Proof. intros o H. unfold opt_empty_value. rewrite H. destruct (o_ty o); reflexivity. Qed.
+Lemma opt_empty_value_not_ptr : forall o,
+  (forall k, o_ty o <> TPtr k) -> opt_empty_value o = empty_value (o_ty o).
+Proof.
+  intros o H. unfold opt_empty_value. destruct (o_ty o) eqn:E; try reflexivity.
+  exfalso. eapply H. reflexivity.
+Qed.
+Lemma opt_empty_value_added_ptr : forall o k,
+  opt_is_added o = true -> o_ty o = TPtr k -> opt_empty_value o = VPtr (Some (zero_kind k)).
+Proof. intros o k H E. unfold opt_empty_value. rewrite E, H. reflexivity. Qed.
+
 (* ------------------------------------------------------------------ logs preorder *)
 Definition same_logs (r r' : rt) : Prop :=
   l_exec (rt_logs r') = l_exec (rt_logs r) /\ l_out (rt_logs r') = l_out (rt_logs r).
